@@ -61,7 +61,8 @@ META = {
     'outside': ['binary64 rounding of clock differences (the SMT part is over the reals, the CrossHair part over integers)',
                 'real sockets, HTTP, the asyncio scheduler, the wall-clock period of the housekeeping thread and its interleaving '
                 'with requests (a housekeeping pass is an atomic history step)',
-                'histories longer than the stated number of steps; more than 2-3 subscriptions; durations/identifiers other than '
+                'histories longer than the stated number of steps (3-step histories only for the path/sync and reference-parameter/async '
+                'managers); more than 2 subscriptions in the pre-state (up to 4-5 with Subscribe steps); durations/identifiers other than '
                 'the pool values inside XML',
                 'Renew/GetStatus on a subscription that is expired or over the failure limit but not yet collected: the statement '
                 'does not say whether it is still "known"; either answer is accepted and the model follows the response',
@@ -159,16 +160,18 @@ def obligations(tier):
     # every other pre-state (no longer known identifiers, failed subscriptions, empty manager): quick 1 step, thorough 2 steps
     for pre in (0, 1, 3, 4, 5):
         obs.append(_hist(f'C08.mgr.pre.{PRE[pre]}', tier, tm, CLAIM_H, f'all 4 managers; pre-state "{PRE[pre]}"; '
-                         f'{1 if quick else 2} step(s); targets also "no identifier at all"', mkset=0, pre=pre, n=1 if quick else 2,
-                         nt=4, zombies=True, slim=False))
+                         f'{1 if quick else 2} step(s); targets also "no identifier at all"' + ('' if quick else '; ' + cut),
+                         mkset=0, pre=pre, n=1 if quick else 2, nt=4, zombies=False, slim=False))
     if not quick:
-        # 3-step histories from two live subscriptions, one process per manager and first operation
-        for mk, mname in enumerate(MGR):
+        # 3-step histories from two live subscriptions, one process per manager and first operation; the two managers together
+        # contain every code unit (sync / async delivery, path / reference-parameter dispatch); the other two combinations run
+        # in the 2-step obligations above
+        for mk, mname in ((0, MGR[0]), (3, MGR[3])):
             for op1, name in enumerate(OPS):
                 obs.append(_hist(f'C08.mgr.three.{mname}.{name}', tier, th, CLAIM_H,
                                  f'manager {mname}; pre-state: two live subscriptions; 3 steps, the first is "{name}"; requested '
                                  f'durations only absent / 5 s; {cut}', mkset=0, mk=mk, pre=2, n=3, nt=3, zombies=False, slim=True,
-                                 op1=op1, twin=False))
+                                 op1=op1))
     return obs
 
 
@@ -182,9 +185,11 @@ MANIFEST_ENTRY = {
             'durations (models replayed on the real methods with exact Fractions); the same code is confirmed over all paths by '
             'CrossHair for unbounded integers. Delivery: two consecutive reports to one subscription with symbolic '
             'closed/unsubscribed/errors/granted/started/now, filter and action by selector, delivery outcome by selector - sandwich '
-            'oracle - for the sync and the async send method. Managers: every history of a pre-state plus <= 2 (quick) / <= 3 '
+            'oracle - for the sync and the async send method. Managers: every history of a pre-state (empty, one or two live '
+            'subscriptions, first one unsubscribed+collected / expired+collected, both failed once) plus 1-2 (quick) / 2-3 '
             '(thorough) steps over 8 operations with all operand choices is executed on the real managers with real SOAP '
-            'envelopes and a virtual clock; faults for unknown / no longer known identifiers with unchanged table, grants, '
+            'envelopes and a virtual clock (quick: all 4 managers for the 1-step and after-Unsubscribe histories, path_sync + '
+            'refparam_async for the 2-step ones; thorough: all 4 for 2 steps, path_sync + refparam_async for 3 steps); faults for unknown / no longer known identifiers with unchanged table, grants, '
             'GetStatus values, per-subscriber delivery and the SubscriptionEnd routing are compared with the model.',
     'note': 'Bounded: <= 3 steps after a pre-state of <= 2 subscriptions, pool values inside XML, integer clock in the CrossHair '
             'parts, reals (not binary64) in the SMT part. Trusted: CrossHair/z3 path exhaustion, the pysym translator (validated per '
